@@ -153,6 +153,8 @@ fn hostile_slot_values(rng: &mut Rng) -> Vec<Vec<u8>> {
         vec![0xfd, 0xff],                   // 16383 (max 2-byte)
         vec![0xfe, 0xff, 0xff, 0xff],       // 2^30-1 (max 4-byte)
         vec![0x03, 0xff, 0xff, 0xff, 0xff], // u32::MAX
+        vec![0xfd, 0x00],                   // non-canonical 63 in 2 bytes (largest value that must use 1 byte)
+        vec![0xfe, 0xff, 0x00, 0x00],       // non-canonical 16383 in 4 bytes
         vec![0x01, 0x00],                   // non-canonical 0 in 2 bytes
         vec![0x05, 0x00],                   // non-canonical 1 in 2 bytes
         vec![0x02, 0x00, 0x00, 0x00],       // non-canonical 0 in 4 bytes
@@ -426,6 +428,15 @@ pub fn run(a: &Args) -> Report {
             }
             check_json(&m, "byte-fault", rep, &case(format!("json byte fault near {}", p)));
         }
+        // entries with their members in the other order ("type" before "id"), alone and combined with a broken body
+        if let Ok(text) = String::from_utf8(doc.clone()) {
+            let swapped = text.replace("{\"id\":", "{\"type\":{\"def\":{\"primitive\":\"nosuch\"}},\"id\":");
+            if swapped != text {
+                check_json(swapped.as_bytes(), "struct-key-order", rep, &case("json: broken type member before id (duplicate type key)".into()));
+            }
+            let no_id = text.replace("\"id\":", "\"ID\":").replace("\"primitive\":\"", "\"primitive\":\"x");
+            check_json(no_id.as_bytes(), "struct-double", rep, &case("json: id misspelt and primitive names broken".into()));
+        }
         // structural faults through serde_json::Value
         if let Ok(v) = serde_json::from_slice::<serde_json::Value>(&doc) {
             for _ in 0..if light { 4 } else { 40 } {
@@ -433,6 +444,12 @@ pub fn run(a: &Args) -> Report {
                 let what = json_fault(&mut w, &mut rng);
                 let m = serde_json::to_vec(&w).unwrap();
                 check_json(&m, &format!("struct-{}", what), rep, &case(format!("json structural {}", what)));
+                // two structural faults in one document
+                if rng.chance(1, 2) {
+                    let what2 = json_fault(&mut w, &mut rng);
+                    let m = serde_json::to_vec(&w).unwrap();
+                    check_json(&m, "struct-double", rep, &case(format!("json structural {} + {}", what, what2)));
+                }
             }
         }
     });
